@@ -49,6 +49,7 @@ TextInfo(text, m) ==
     IN  [len  |-> Len(text),
          ends |-> SelectSeq(idx, LAMBDA i : IsLineEnd(text[i], m) /\ ~(text[i] = 13 /\ ~m.lfOnly /\ i < Len(text) /\ text[i + 1] = 10)),
          wide |-> IF m.bytes THEN SelectSeq(idx, LAMBDA i : text[i] >= 128) ELSE <<>>,
+         nonascii |-> SelectSeq(idx, LAMBDA i : text[i] >= 128),
          text |-> text]
 
 RECURSIVE SumWidths(_, _, _, _, _)
@@ -58,15 +59,37 @@ SumWidths(wide, k, i, text, m) ==      \* extra units of the wide characters wit
 UnitOff(inf, i, m) == (i - 1) + SumWidths(inf.wide, 1, i, inf.text, m)
 
 Unknown == [line |-> 0, col |-> 0]
-(* position of the offset off (1-based, code units, measured in the text `from`) looked up in the text `in`: *)
-(* the line is 1 + the number of line ends wholly before it, the column counts from the last of them        *)
+(* position of the character index off (1-based; len + 1: the end of the text, for the parser) of a text: *)
+(* the line is 1 + the number of line ends wholly before it, the column counts from the last of them      *)
+LineColOf(in, off, m) ==
+    IF off < 1 THEN Unknown
+    ELSE LET b == UnitOff(in, off, m)
+             total == UnitOff(in, in.len + 1, m)
+             before == SelectSeq(in.ends, LAMBDA e : e < off)
+             eol == IF before = <<>> THEN 0 ELSE UnitOff(in, before[Len(before)] + 1, m)
+         IN  IF off <= in.len \/ (m.eof /\ off = in.len + 1) THEN [line |-> 1 + Len(before), col |-> b - eol + 1] ELSE Unknown
+
+(* Only under D19_eval_leaves_frame_file: an offset measured in one text (`from`) looked up in ANOTHER   *)
+(* text (`in`).  otto's offsets are byte offsets: the byte offset of the character in `from` is taken as *)
+(* a byte offset into `in`; the position is that of the character of `in` it falls into, the column     *)
+(* advanced by one for every byte it lies inside that character.                                         *)
+BytesMode == [lfOnly |-> FALSE, bytes |-> TRUE, eof |-> FALSE]
+RECURSIVE LocateByte(_, _, _, _, _)       \* -> [c: character index, partial: bytes into it]
+LocateByte(text, wide, k, extra, bb) ==
+    IF k > Len(wide) THEN [c |-> bb - extra + 1, partial |-> 0]
+    ELSE LET w == wide[k]
+             startB == (w - 1) + extra
+             len == ULen(text[w], BytesMode)
+         IN  IF bb < startB THEN [c |-> bb - extra + 1, partial |-> 0]
+             ELSE IF bb < startB + len THEN [c |-> w, partial |-> bb - startB]
+             ELSE LocateByte(text, wide, k + 1, extra + len - 1, bb)
 LineColIn(from, in, off, m) ==
     IF off < 1 THEN Unknown
-    ELSE LET b == UnitOff(from, off, m)
-             total == UnitOff(in, in.len + 1, m)
-             before == SelectSeq(in.ends, LAMBDA e : UnitOff(in, e + 1, m) <= b)
-             eol == IF before = <<>> THEN 0 ELSE UnitOff(in, before[Len(before)] + 1, m)
-         IN  IF b < total \/ (m.eof /\ b = total) THEN [line |-> 1 + Len(before), col |-> b - eol + 1] ELSE Unknown
+    ELSE IF from.text = in.text THEN LineColOf(in, off, m)
+    ELSE LET bb == (off - 1) + SumWidths(from.nonascii, 1, off, from.text, BytesMode)
+             loc == LocateByte(in.text, in.nonascii, 1, 0, bb)
+             p == LineColOf(in, loc.c, m)
+         IN  IF p = Unknown THEN Unknown ELSE [line |-> p.line, col |-> p.col + loc.partial]
 
 LineCol(files, of, file, off, kind) ==
     LET m == Mode(kind)
@@ -92,13 +115,18 @@ ShowTrace(files, tr, named) ==
 (* specified: the text is name ": " followed by a non-empty message]            *)
 S_colonSpace == <<58, 32>>
 ErrText(st, v) ==
-    IF D("D19_error_text_from_construction") THEN
+    IF "cname" \notin DOMAIN st.H[v.id].fn THEN [und |-> TRUE]        \* one of the built-in prototype objects: not generated
+    ELSE IF D("D19_error_text_from_construction") THEN
         \* otto formats the name and message the Error instance was CREATED with
         (LET fn == st.H[v.id].fn
          IN  IF fn.cmsg.t = "unmodelled" THEN [und |-> FALSE, known |-> FALSE, name |-> fn.cname, text |-> <<>>]
              ELSE [und |-> FALSE, known |-> TRUE, name |-> fn.cname,
                    text |-> IF fn.cname = <<>> THEN fn.cmsg.s ELSE IF fn.cmsg.s = <<>> THEN fn.cname
                             ELSE fn.cname \o S_colonSpace \o fn.cmsg.s])
+    ELSE IF D("D19_internal_error_text_static_name") /\ st.H[v.id].fn.raw THEN
+        \* an error raised by the interpreter that reaches Run without passing through any try statement
+        \* is formatted with the name of its constructor as built in, whatever the prototype's name is now
+        [und |-> FALSE, known |-> FALSE, name |-> st.H[v.id].fn.cname, text |-> <<>>]
     ELSE
     \* [[Get]] of a data property (own or inherited) and ToString of a primitive: nothing here runs
     \* script code; an accessor or an object value leaves the modelled fragment
